@@ -466,7 +466,7 @@ func c13PQ(c *mon.Ctx) {
 		cases = append(cases, pqCase{class, a, b})
 	}
 	// expensive classes first (better packing on the worker pool)
-	for i := 0; i < c.N(24, 12000); i++ {
+	for i := 0; i < c.N(20, 12000); i++ {
 		add("balanced-32x32", randPrimeIn(r, 1<<31, pqSqrtLimit), randPrimeIn(r, 1<<31, pqSqrtLimit))
 	}
 	var top []uint64
